@@ -73,6 +73,8 @@ def run(task):
             k = len(res["state_set"])
             if k % 3 == 0:
                 wrec = {"k": "pos", "de": 0.35} if recipe["k"] != "pos" else {"k": "comb", "a": 1.0, "b": 1.0, "de": 1.0}
+                if (k // 12) % 2 == 0:
+                    wrec = recipe  # the earlier alignment used the very same dissimilarity object
                 warm = {"recipe": wrec, "how": A.WARM_KINDS[(k // 3) % len(A.WARM_KINDS)]}
                 be = "cbc" if A.cbc_available() else "glpk_noimport"
                 obs = A.eval_case(spec, recipe, be, KIND, warm=warm)
